@@ -213,8 +213,88 @@ pub struct Req {
     pub body: Bytes,
 }
 
+/// Ways in which a remote can write a request frame that does not decode (`RawRequestMessageDecoder`).
+#[derive(Clone, Copy, Debug, PartialEq, Eq)]
+pub enum CorruptHow {
+    /// Operation tag 0b111, which no request or response uses.
+    BadTag,
+    /// A response tag (`linked`) on the request channel.
+    ResponseTag,
+    /// A `link` header that declares a body (rejected as soon as the header is complete).
+    LinkWithBody,
+    /// Lane name bytes that are not UTF-8.
+    BadUtf8Lane,
+    /// Node uri bytes that are not UTF-8.
+    BadUtf8Node,
+    /// A node length of 4 GB: the decoder waits for bytes that never come; whatever the remote writes
+    /// afterwards is taken for a part of that frame.
+    Overrun,
+    /// Half a header, then the remote closes its writing half (bytes remaining at end of stream).
+    TruncatedThenClose,
+}
+
+impl CorruptHow {
+    pub const ALL: [CorruptHow; 7] = [
+        CorruptHow::BadTag,
+        CorruptHow::ResponseTag,
+        CorruptHow::LinkWithBody,
+        CorruptHow::BadUtf8Lane,
+        CorruptHow::BadUtf8Node,
+        CorruptHow::Overrun,
+        CorruptHow::TruncatedThenClose,
+    ];
+    pub fn name(&self) -> &'static str {
+        match self {
+            CorruptHow::BadTag => "bad-tag",
+            CorruptHow::ResponseTag => "response-tag",
+            CorruptHow::LinkWithBody => "link-with-body",
+            CorruptHow::BadUtf8Lane => "bad-utf8-lane",
+            CorruptHow::BadUtf8Node => "bad-utf8-node",
+            CorruptHow::Overrun => "length-overrun",
+            CorruptHow::TruncatedThenClose => "truncated-then-close",
+        }
+    }
+}
+
+/// The bytes of a request frame of `id` for `node`/`lane` that does not decode.
+/// Layout of a request header (swimos_messages::protocol): origin u128, node length u32, lane length
+/// u32, (tag << 61 | body length) u64, then node, lane and body bytes.
+pub fn corrupt_frame(how: CorruptHow, id: Uuid, node: &str, lane: &str) -> Vec<u8> {
+    const LINK: u64 = 0b000;
+    const LINKED: u64 = 0b100;
+    const NONE: u64 = 0b111;
+    let bad: &[u8] = &[0xf0, 0x28, 0x8c, 0x28];
+    let (node_b, lane_b, tag, body_len, node_len_field): (&[u8], &[u8], u64, u64, Option<u32>) = match how {
+        CorruptHow::BadTag => (node.as_bytes(), lane.as_bytes(), NONE, 0, None),
+        CorruptHow::ResponseTag => (node.as_bytes(), lane.as_bytes(), LINKED, 0, None),
+        CorruptHow::LinkWithBody => (node.as_bytes(), lane.as_bytes(), LINK, 3, None),
+        CorruptHow::BadUtf8Lane => (node.as_bytes(), bad, LINK, 0, None),
+        CorruptHow::BadUtf8Node => (bad, lane.as_bytes(), LINK, 0, None),
+        CorruptHow::Overrun => (node.as_bytes(), lane.as_bytes(), LINK, 0, Some(0xffff_fff0)),
+        CorruptHow::TruncatedThenClose => (node.as_bytes(), lane.as_bytes(), LINK, 0, None),
+    };
+    let mut v = vec![];
+    v.extend_from_slice(&id.as_u128().to_be_bytes());
+    v.extend_from_slice(&node_len_field.unwrap_or(node_b.len() as u32).to_be_bytes());
+    v.extend_from_slice(&(lane_b.len() as u32).to_be_bytes());
+    v.extend_from_slice(&((tag << 61) | body_len).to_be_bytes());
+    v.extend_from_slice(node_b);
+    v.extend_from_slice(lane_b);
+    if how == CorruptHow::LinkWithBody {
+        v.extend_from_slice(b"xyz");
+    }
+    if how == CorruptHow::TruncatedThenClose {
+        v.truncate(19);
+    }
+    v
+}
+
 #[derive(Default)]
 pub struct ReqLog {
+    /// The remote wrote a frame that does not decode: (ticket before the write, ticket after the bytes were
+    /// accepted by the channel, how). Requests written afterwards keep `t1 == None`: nothing says whether
+    /// the runtime still looks at them.
+    pub corrupt: Option<(u64, Option<u64>, CorruptHow)>,
     pub reqs: Vec<Req>,
     /// Requests handed to the writer task and not yet written.
     pub queued: usize,
@@ -227,6 +307,8 @@ pub type SharedReqs = Arc<Mutex<ReqLog>>;
 
 pub enum WriterCmd {
     Send(ReqKind, String, Bytes),
+    /// Write a frame that does not decode, addressed to this lane name.
+    Corrupt(CorruptHow, String),
     Close,
 }
 
@@ -234,9 +316,34 @@ pub enum WriterCmd {
 /// when a write fails (the runtime dropped its reading half).
 pub async fn writer_task(id: Uuid, node: String, writer: ByteWriter, mut rx: mpsc::UnboundedReceiver<WriterCmd>, log: SharedReqs) {
     let mut framed = FramedWrite::new(writer, RawRequestMessageEncoder);
+    let mut corrupted = false;
     while let Some(cmd) = rx.recv().await {
         match cmd {
             WriterCmd::Close => break,
+            WriterCmd::Corrupt(how, lane) => {
+                use tokio::io::AsyncWriteExt;
+                if corrupted {
+                    continue;
+                }
+                corrupted = true;
+                let bytes = corrupt_frame(how, id, &node, &lane);
+                log.lock().corrupt = Some((ticket(), None, how));
+                // every earlier frame was flushed by `send`: the raw bytes follow a frame boundary
+                let w = framed.get_mut();
+                let ok = w.write_all(&bytes).await.is_ok() && w.flush().await.is_ok();
+                let mut g = log.lock();
+                if ok {
+                    if let Some(c) = g.corrupt.as_mut() {
+                        c.1 = Some(ticket());
+                    }
+                } else {
+                    g.write_failed = true;
+                    break;
+                }
+                if how == CorruptHow::TruncatedThenClose {
+                    break;
+                }
+            }
             WriterCmd::Send(kind, lane, body) => {
                 let path = RelativeAddress::new(node.as_str(), lane.as_str());
                 let msg: RequestMessage<&str, &[u8]> = match kind {
@@ -254,6 +361,8 @@ pub async fn writer_task(id: Uuid, node: String, writer: ByteWriter, mut rx: mps
                 let mut g = log.lock();
                 g.queued = g.queued.saturating_sub(1);
                 match r {
+                    // after a corrupt frame nothing says whether the runtime still decodes what follows
+                    Ok(()) if corrupted => {}
                     Ok(()) => g.reqs[idx].t1 = Some(ticket()),
                     Err(_) => {
                         g.write_failed = true;
